@@ -2,5 +2,5 @@ SPECIFICATION Spec
 CONSTANTS
   MaxItems = 5
   Items <- AllItems
-  DumpMod = 3
+  DumpMod = 17
 CONSTRAINT Dump
